@@ -11,7 +11,7 @@ OBLIGATIONS = [
     SX("sx_histories", "sx_c01", "ob_history", cls="E", quick=600, thorough=3600, parts={"quick": 14, "thorough": 16},
        functions=[A + n for n in ("_AtomArrayBase._del_element/_set_element/set_annotation/del_annotation/__copy_fill__", "AtomArrayStack.__setitem__/__delitem__",
                                   "concatenate", "stack", "repeat", "array", "AtomArray.__add__")] + ["src/biotite/copyable.py:Copyable.copy"], stubs=STUBS[:1],
-       bounds="all operation sequences of length 2 (thorough 3) over 13 operations (slice / mask / index-array indexing, concatenation (+ and concatenate, operands with and without bonds/box), atom deletion incl. negative indices, model deletion, element assignment, annotation add/set/del, copy with mutation of every mutable part, stack/get_array, repeat, narrowing overwrite of an annotation, re-declared annotation categories (widening, refused incompatible dtype), array() of atoms with over-long strings, model assignment with mismatching bonds refused, atoms with differing categories refused by array(), NaN in float16/32/64 annotations under copy / equality / stacking) x 6 arguments, on arrays and stacks with/without bonds and box; full state compared with the model after every step"),
+       bounds="all operation sequences of length 2 (thorough 3) over 13 operations (slice / mask / index-array indexing, concatenation (+ and concatenate, operands with and without bonds/box), atom deletion incl. negative indices, model deletion, element assignment, annotation add/set/del, copy with mutation of every mutable part, stack/get_array, repeat, narrowing overwrite of an annotation, re-declared annotation categories (widening, refused incompatible dtype), array() of atoms with over-long strings, model assignment with mismatching bonds refused, atoms with differing categories refused by array(), NaN in float16/32/64 annotations under copy / equality / stacking) x 6 arguments, on arrays and stacks with/without bonds and box; full state compared with the model after every step; on every copy step `==` must hold with the original in both directions and must fail in both directions for variants that differ in one component (box present/absent, box values, bonds present/absent, last coordinate, res_id, an extra annotation category)"),
 ]
 EXPLANATION = "C01: atom arrays and stacks stay coherent under any sequence of operations."
 ASSUMPTIONS = []
